@@ -69,8 +69,12 @@ func runC13(args []string) {
 	for _, n := range named {
 		bi := len(cases)
 		cases = append(cases, c13Case{name: n.Name, class: "base", text: schema.Print(n.S, lay), base: -1})
-		for _, m := range schema.Mutations(n.S) {
+		for mi, m := range schema.Mutations(n.S) {
 			cases = append(cases, c13Case{name: n.Name, class: m.Class, site: m.Site, text: schema.Print(m.S, lay), reject: true, base: bi})
+			// the same injection in another layout (rotating): what Validate sees must not depend on
+			// blank lines after attributes, CRLF, one-line bodies ...
+			l2 := schema.Layouts[1+mi%(len(schema.Layouts)-1)]
+			cases = append(cases, c13Case{name: n.Name, class: m.Class, site: m.Site, text: schema.Print(m.S, l2), reject: true, base: bi})
 		}
 	}
 	for _, it := range schema.RecursionFamily() {
